@@ -356,6 +356,12 @@ StringDictionaryHHTFC::StringDictionaryHHTFC(IteratorDictString *it,
 
     delete[] tmp;
 
+    // The last bucket may be incomplete: its ending decodeable substring is
+    // still pending (as in StringDictionaryHTFC)
+    if (textSubstr.size() > 0)
+      builderHU->insertEndingSubstr(&codeSubstr, &ptrSubstr, &textSubstr,
+                                    &lenSubstr);
+
     bytesStrings++;
     xblStrings.push_back(bytesStrings);
     blStrings = new LogSequence(&xblStrings, bits(bytesStrings));
